@@ -1583,6 +1583,18 @@ where
             }
             // Hyrax: two variables MORE than the key was made for (the parity test passes; for n ≥ 8 the key-size
             // guard, which compares n with the number of generators, passes too: only the row commitment notices)
+            // Brakedown: the key fixes the matrix shape for its number of variables; a larger polynomial must be
+            // refused, not truncated to its first 2^nv evaluations (D21)
+            if S::NAME == "brakedown" {
+                for extra in [1usize, 2] {
+                    let bigger = Sizes { num_vars: Some(nv + extra), ..sizes.clone() };
+                    if nv + extra > 12 { continue; }
+                    let p = S::rand_poly(&mut rng, &bigger, 1);
+                    let lp = LabeledPolynomial::new("nvbig".to_string(), p, None, None);
+                    let r = guarded(|| S::PC::commit(&inst.ck, [&lp], Some(&mut rng.clone())));
+                    refuse(ctx, &id, "more-variables-than-the-key", matches!(r, Ok(Ok(_))), format!("key nv {} poly nv {}", nv, nv + extra));
+                }
+            }
             if S::NAME == "hyrax" {
                 for extra in [2usize, 4] {
                     let bigger = Sizes { num_vars: Some(nv + extra), ..sizes.clone() };
